@@ -14,7 +14,7 @@ from .core import sm, X, call
 from smoothmath import Point
 
 OPS = ["at", "atnum", "partial", "partial_early", "pobj_new", "pobj_at", "pobj_expr", "diff_at",
-       "diff_early_at", "located", "normalize", "deriv", "component_at", "fail_missing", "compose", "ld_new", "ld_query"]
+       "diff_early_at", "located", "normalize", "deriv", "component_at", "fail_missing", "compose", "ld_new", "ld_query", "clone"]
 
 
 def make_pool(rng: random.Random, k: int, depth: int, names=("x", "y")) -> list:
@@ -304,6 +304,16 @@ class Runner:
     def _do(self, op: dict):
         k = op["op"]
         e = self.pool[op["i"]] if op["i"] < len(self.pool) else self.pool[0]
+        if k == "clone":
+            # the pool member is replaced by a copy of itself (memos and flags travel with it or not - either way
+            # every later answer must be the one a never-used object gives)
+            import copy
+            import pickle
+            how = (copy.deepcopy, copy.copy, lambda o: pickle.loads(pickle.dumps(o)))[len(op.get("p", "")) % 3]
+            r = call(lambda: how(e), timeout=20)
+            if r[0] == "ok" and op["i"] < len(self.pool):
+                self.pool[op["i"]] = r[1]
+            return ("ok", None) if r[0] == "ok" else r
         if k == "compose":
             # a new pool member built around an expression object that an earlier operation returned
             x = X.Variable(op.get("x", "x"))
@@ -406,7 +416,7 @@ def make_obj(kind: str, e, x: str):
 def fresh_result(pool_texts: list[str], op: dict, src: tuple | None, expr_called_before: bool):
     """the same operation on a freshly built, never-used copy; a persistent Partial is rebuilt in the
     abstract state it had (whether as_expression() had been called on it)"""
-    if op["op"] == "compose":
+    if op["op"] in ("compose", "clone"):
         return ("ok", None)
     r = Runner(build_pool(pool_texts))
     if op["op"] == "ld_new":
